@@ -151,7 +151,61 @@ def run(res):
                               {'ordering': order, 'operation': name, 'assignment': {k_: int(v) for k_, v in wrong.items()}})
             elif not B.ordered_reduced(r.root, order):
                 res.violation('C17 at scale: the result of %s is not ordered/reduced' % name, {'ordering': order, 'operation': name})
+    # concurrency: restrict / & / | / ~ on shared diagrams from four threads at once (tiny switch interval); every result
+    # must be the very node obtained sequentially
+    import sys as _sys
+    import threading
+    k = 7
+    xs = ['x%d' % i for i in range(k)]
+    ys = ['y%d' % i for i in range(k)]
+    order_c = [v for p_ in zip(xs, ys) for v in p_]
+    fc = OBDD(' | '.join('(%s & %s)' % (x, y) for x, y in zip(xs, ys)), list(order_c))
+    gc_ = OBDD(' | '.join('(%s & %s & %s)' % (xs[i], ys[i], xs[(i + 1) % k]) for i in range(k)), list(order_c))
+    jobs_c = [('restrict', v, b) for v in order_c for b in (False, True)] + [('and',), ('or',), ('xor',), ('inv',)]
+
+    def do(job):
+        try:
+            if job[0] == 'restrict':
+                return (fc.restrict(job[1], job[2]).root, gc_.restrict(job[1], job[2]).root)
+            if job[0] == 'and':
+                return ((fc & gc_).root,)
+            if job[0] == 'or':
+                return ((fc | gc_).root,)
+            if job[0] == 'xor':
+                return ((fc ^ gc_).root,)
+            return ((~fc).root, (~gc_).root)
+        except Exception as e:
+            return 'ERR ' + type(e).__name__
+    seq_c = {j: do(j) for j in jobs_c}
+    bad_c = {}
+
+    def worker_c(share):
+        for j in share:
+            r = do(j)
+            # compared as trees, not by identity: whether the unique table itself is thread-safe is not claimed
+            if isinstance(r, str) or isinstance(seq_c[j], str) or \
+                    any(B.impl_tree(a, order_c) != B.impl_tree(b, order_c) for a, b in zip(r, seq_c[j])):
+                bad_c[j] = r
+    order_jobs = list(jobs_c) * (4 if quick else 12)
+    rng.shuffle(order_jobs)
+    old_si = _sys.getswitchinterval()
+    _sys.setswitchinterval(1e-6)
+    try:
+        ths = [threading.Thread(target=worker_c, args=(order_jobs[i::4],)) for i in range(4)]
+        for th in ths:
+            th.start()
+        for th in ths:
+            th.join()
+    finally:
+        _sys.setswitchinterval(old_si)
+    for j in sorted(bad_c, key=str)[:2]:
+        r = bad_c[j]
+        res.violation('from 4 threads at once, %s on shared diagrams gives %s; alone it gives another diagram' % (j, r if isinstance(r, str) else 'a different root'),
+                      {'ordering': order_c, 'f': str(fc)[:200], 'g': str(gc_)[:200], 'operation': [str(x) for x in j],
+                       'history': '4 threads share f and g'})
     st = B.run_histories(res, hs, 'C17')
+    res.coverage['threaded_operations'] = len(order_jobs)
+    res.coverage['threaded_disagreements'] = len(bad_c)
     # the API around the operations (orderings, respect_ordering, node/OBDD constructors, ==, restrict guards, ...)
     from checks import bdd_api
     api = bdd_api.run_api(res, rng_for('C17/api'), quick, store=False)
